@@ -56,7 +56,7 @@ func (c19) Rule() string {
 	return "requests to the observation-log storage: ~65% DB layer directly, ~35% through the gRPC handlers of package main; both dialects; " +
 		"report (0-8, sometimes up to 40 entries) / get (0-3 filters) / delete; every string drawn from a pool of plain identifiers and hostile texts " +
 		"(quotes, comment markers, statement separators, placeholders '?' '$1', printf verbs, NUL, control bytes, unicode, invalid UTF-8 at the DB level, 300-byte strings, empty); " +
-		"time stamps valid (zones, fractions), empty, or unparsable; missing sub-messages (nil observation_log / nil entry / nil metric); ~6% with an injected database failure. " +
+		"a third of the DB-level requests are served after one or two earlier requests on the same storage object (same operation, same number of entries or other filters: what the object keeps between requests must not matter); time stamps valid (zones, fractions), empty, or unparsable; missing sub-messages (nil observation_log / nil entry / nil metric); ~6% with an injected database failure. " +
 		"The last fifth of a run is the malformed stream (every string hostile, more nil sub-messages and bad times). " +
 		"Non-trivial: a report with >= 2 timestamped entries, or a get with >= 2 filters, or a hostile string in a bound position, or a malformed request. " +
 		"Distinct: by the JSON of the input."
@@ -193,6 +193,42 @@ func (c19) Gen(r *rand.Rand, i, n int) any {
 		}
 		if r.Intn(2) == 0 {
 			in.End = c19S(c19Time(r, badPct*3))
+		}
+	}
+	// a third of the DB-level requests come after one or two earlier requests on the same storage object: mostly the same
+	// operation with the same number of entries / another set of filters, so that anything the storage object keeps between
+	// requests (prepared statements, buffers) is reused with a different shape
+	if in.Level == "db" && r.Intn(3) == 0 {
+		for k := 1 + r.Intn(2); k > 0; k-- {
+			p := c19Input{Level: "db", Dialect: in.Dialect, Op: in.Op, Trial: c19S(c19Str(r, false, false))}
+			if r.Intn(5) == 0 {
+				p.Op = kit.Pick(r, []string{"report", "get", "delete"})
+			}
+			switch p.Op {
+			case "report":
+				ln := len(in.Entries)
+				if ln == 0 || r.Intn(4) == 0 {
+					ln = 1 + r.Intn(6)
+				}
+				for j := 0; j < ln; j++ {
+					e := c19Entry{Name: c19S(c19Str(r, false, false)), Value: c19S(c19Str(r, false, false))}
+					if r.Intn(3) != 0 {
+						e.TS = c19S(c19Time(r, 0))
+					}
+					p.Entries = append(p.Entries, e)
+				}
+			case "get":
+				if r.Intn(2) == 0 {
+					p.Metric = c19S(c19Str(r, false, false))
+				}
+				if r.Intn(2) == 0 {
+					p.Start = c19S(c19Time(r, 0))
+				}
+				if r.Intn(2) == 0 {
+					p.End = c19S(c19Time(r, 0))
+				}
+			}
+			in.Pre = append(in.Pre, p)
 		}
 	}
 	c19Note(in)
@@ -497,6 +533,9 @@ func (c19) Run(input any) kit.Case {
 	c.Key = kit.KeyIf("C19", "nil-submessage", in.Level == "handler" && in.Op == "report" && hasNil)
 	c.Nontrivial = malformed || hostile || nts >= 2
 	c.Tags = append(c.Tags, "level:"+in.Level, "dialect:"+in.Dialect, "answer:"+res.Kind)
+	if len(in.Pre) > 0 {
+		c.Tags = append(c.Tags, fmt.Sprintf("after-earlier-requests=%d", len(in.Pre)))
+	}
 	if hostile {
 		c.Tags = append(c.Tags, "hostile-string-bound")
 	}
